@@ -69,6 +69,7 @@ Inductive nop :=
 | SetKnown (a p : N) (aff : option affinity)
 | Partition (a b : N)
 | Heal (a b : N)
+| FailedArrival (a b : N)                     (* a's connection reaches b and is admitted, but anemo's handshake never completes *)
 | Quiesce.                                    (* longer than the idle timeout passes *)
 
 Record world := mkWorld { w_net : net; w_cut : list (N * N) }.
@@ -138,6 +139,7 @@ Definition step (w : world) (o : nop) : world * option dial_result :=
                    (w_cut w), None)
       | None => (w, None)
       end
+  | FailedArrival _ _ => (w, None)      (* nothing is registered, counted or announced *)
   | Partition a b => (mkWorld (w_net w) ((a, b) :: w_cut w), None)
   | Heal a b =>
       (mkWorld (w_net w)
